@@ -279,7 +279,32 @@ class Interp(HeapMixin, OpsMixin, StmtMixin, CallMixin):
         if name in self.spec_funcs:
             fn, rel = self.spec_funcs[name]
             return VFunc(fn, None, None, rel, name)
-        return self.lookup_global(name, frame.relpath if frame else None)
+        try:
+            return self.lookup_global(name, frame.relpath if frame else None)
+        except E.Unsupported as ex:
+            if "not resolvable" in str(ex) and frame is not None and frame.relpath and not frame.relpath.startswith("<") and not self.pure:
+                # Python semantics: a local that is not (yet) bound on this path, or an unknown global -> UnboundLocalError / NameError
+                raise E.PyExc(VExc("UnboundLocalError" if self.is_local_name(name, frame) else "NameError"), f"name {name!r} is not defined")
+            raise
+
+    _local_names_cache: dict = {}
+
+    def is_local_name(self, name, frame):
+        import ast as _ast
+        key = (frame.relpath, frame.fname)
+        if key not in self._local_names_cache:
+            names = set()
+            m = self.repo.module(frame.relpath)
+            fn = None
+            qual = frame.fname.split(".")[-1] if frame.fname else ""
+            for n in _ast.walk(m.tree) if hasattr(m, "tree") else []:
+                if isinstance(n, (_ast.FunctionDef, _ast.AsyncFunctionDef)) and n.name == qual:
+                    fn = n
+                    for x in _ast.walk(fn):
+                        if isinstance(x, _ast.Name) and isinstance(x.ctx, _ast.Store):
+                            names.add(x.id)
+            self._local_names_cache[key] = names
+        return name in self._local_names_cache[key]
 
     spec_env: dict = {}
 
